@@ -364,7 +364,7 @@ func (t *ArrayDataType) Format(prefix ...string) string {
 		options = append(options, ignoreHeadComment())
 	}
 
-	dataType = transfer2TokenNode(t.DataType, false, options...)
+	dataType = transfer2TokenNode(t.DataType, t.isChild, options...)
 	node := transferNilInfixNode([]*TokenNode{lbrack, lengthNode, rbrack, dataType})
 	w.Write(withNode(node))
 	return w.String()
@@ -532,7 +532,7 @@ func (t *MapDataType) Format(prefix ...string) string {
 	}
 
 	keyDataType := transfer2TokenNode(t.Key, true, keyOption...)
-	valueDataType := transfer2TokenNode(t.Value, false, valueOption...)
+	valueDataType := transfer2TokenNode(t.Value, t.isChild, valueOption...)
 	node := transferNilInfixNode([]*TokenNode{mapNode, lbrack, keyDataType, rbrack, valueDataType})
 	w.Write(withNode(node))
 	return w.String()
@@ -587,8 +587,13 @@ func (t *PointerDataType) Format(prefix ...string) string {
 	w := NewBufferWriter()
 	star := transferTokenNode(t.Star, ignoreLeadingComment(), withTokenNodePrefix(prefix...))
 	var dataTypeOption []tokenNodeOption
-	dataTypeOption = append(dataTypeOption, ignoreHeadComment())
-	dataType := transfer2TokenNode(t.DataType, false, dataTypeOption...)
+	if t.isChild {
+		// inside a map key no comment is written (a line comment would swallow the ']')
+		dataTypeOption = append(dataTypeOption, ignoreComment())
+	} else {
+		dataTypeOption = append(dataTypeOption, ignoreHeadComment())
+	}
+	dataType := transfer2TokenNode(t.DataType, t.isChild, dataTypeOption...)
 	node := transferNilInfixNode([]*TokenNode{star, dataType})
 	w.Write(withNode(node))
 	return w.String()
@@ -645,7 +650,11 @@ func (t *SliceDataType) Format(prefix ...string) string {
 	w := NewBufferWriter()
 	lbrack := transferTokenNode(t.LBrack, ignoreLeadingComment())
 	rbrack := transferTokenNode(t.RBrack, ignoreHeadComment())
-	dataType := transfer2TokenNode(t.DataType, false, withTokenNodePrefix(prefix...), ignoreHeadComment())
+	options := []tokenNodeOption{withTokenNodePrefix(prefix...), ignoreHeadComment()}
+	if t.isChild {
+		options = append(options, ignoreComment())
+	}
+	dataType := transfer2TokenNode(t.DataType, t.isChild, options...)
 	node := transferNilInfixNode([]*TokenNode{lbrack, rbrack, dataType})
 	w.Write(withNode(node))
 	return w.String()
@@ -702,6 +711,9 @@ func (t *StructDataType) Format(prefix ...string) string {
 	if len(t.Elements) == 0 {
 		lbrace := transferTokenNode(t.LBrace, withTokenNodePrefix(prefix...), ignoreLeadingComment())
 		rbrace := transferTokenNode(t.RBrace, ignoreHeadComment())
+		if t.isChild {
+			rbrace = transferTokenNode(t.RBrace, ignoreComment())
+		}
 		brace := transferNilInfixNode([]*TokenNode{lbrace, rbrace})
 		w.Write(withNode(brace), expectSameLine())
 		return w.String()
@@ -761,6 +773,10 @@ func (t *StructDataType) Format(prefix ...string) string {
 			}
 		}
 		w.NewLine()
+	}
+	if t.isChild {
+		w.WriteText(transferTokenNode(t.RBrace, ignoreLeadingComment()).Format(prefix...))
+		return w.String()
 	}
 	w.WriteText(t.RBrace.Format(prefix...))
 	return w.String()
